@@ -24,6 +24,9 @@ fn capture_configs() -> Vec<(&'static str, Vec<&'static str>)> {
         ("large+fraction", vec!["c = 1e21", "d = 0.1"]),
         ("negzero+long", vec!["c = -0", "d = 123456789.123"]),
         ("functions", vec!["c = q => q", "d = [n => n + 1, abs]"]),
+        // captured closures whose own body has via / into / where at its top level (inlined into the
+        // emitted source as a parenthesised lambda)
+        ("closures-with-pipe-bodies", vec!["c = n => ([n, n] via (q => q + 1))", "d = [n => (n into (q => [q])), (l, p) => ([l] where (e => e == p))]"]),
         // integer-valued numbers around the 64-bit integer boundaries (written out with all their digits)
         ("integer-boundaries", vec!["c = 2 ^ 63", "d = [0 - 9.5e18, 9.3e18, 2 ^ 64 - 2048, 2 ^ 53 + 2, 2 ^ 31, 2 ^ 32 + 1, 0 - 2 ^ 63, 1e19, 99999999999999999999]"]),
         // outer variables named like the function's own parameters (they must never be substituted
